@@ -312,6 +312,9 @@ func RaceBodies(id string) func() { return raceBodies[id] }
 // distinct data race as a violation (clause: "does not crash the node").
 func RacePass(rep *Report, id, keyPrefix string) {
 	bin := filepath.Join(Root(), ".build", "vcheck-race")
+	if b := os.Getenv("VERIF_RACE_BIN"); b != "" { // development builds outside .build (run.sh, VERIF_BUILD)
+		bin = b
+	}
 	if _, err := os.Stat(bin); err != nil {
 		rep.Set("race_pass", "skipped: "+bin+" not built")
 		return
